@@ -34,6 +34,8 @@ from pyvc.th_tables import Tables, Key, KEY, fresh_table, wf, no_columns, nrows,
 from pyvc.sv import SV, I, B, S, T, NONE, fresh_name, fresh_int
 from pyvc.th_tables2 import (Rows, Init, Concat, Concats, Slices, Deletes, Names, Updates, NK, SK, SP, name_list, named, PySlice, SLEN, SIDX, slice_axiom, CNT, cnt_def, count_lemmas, fresh_rowlist, rows_of, mask_list, rowmap, fresh_colmap, as_table, CLS,
                               equally_long, same_columns, records_contract, empty_with_columns_contract, mask_contract, MASK_CLAUSES)
+from pyvc.th_lists import INT
+from pyvc.th_tables3 import RowsHeaders, fresh_rows, rows_of_width, keyseq, distinct_names, rows_headers_contract, ROWS_CLAUSES
 
 PROP = 'C01'
 REPLAY_MODULE = 'rac.C01_ded'
@@ -89,12 +91,21 @@ class Dictable:
         raise OutOfSubset('dict comprehension with %s values' % vnew.kind)
 
 
-def ground_section(ctx, n0, rounds=2, only=None):
+def ground_section(ctx, n0, rounds=2, only=None, lazy=False):
     """the obligations of a section are replaced by their quantifier-free grounding (pyvc/ground.py: universal hypotheses instantiated over the
-    index terms of the query - a weakening of the hypotheses, so `unsat` still proves the clause, and a failing clause comes back `sat`)"""
+    index terms of the query - a weakening of the hypotheses, so `unsat` still proves the clause, and a failing clause comes back `sat`).
+    lazy: an obligation that z3 discharges as it stands within a second is left as it is (grounding costs about a second of generation per
+    obligation); only the others - the failing ones on a changed tree - are grounded, so that they come back `sat` rather than `unknown`."""
     from pyvc.ground import ground_obligation
     for ob in ctx.obligations[n0:]:
         if ob.kind != 'syntactic' and (only is None or only(ob.name)):
+            if lazy:
+                s = z3.Solver()
+                s.set('timeout', 1000)
+                s.add(*ob.hyps)
+                s.add(Not(ob.goal))
+                if s.check() == z3.unsat:
+                    continue
             ground_obligation(ob, rounds=rounds)
     ctx.trust('engine:obligations of the table sections are discharged on their grounding (universal hypotheses replaced by instances over the index terms of the query)')
 
@@ -523,6 +534,118 @@ def constructor_obligations(ctx, m):
         ctx.cover('constructor.%s.pre' % label, pre)
 
 
+# ====================================================================================================== the constructor from rows + headers
+def _battery(kind):
+    """replay of the rows + headers / integer-list obligations: a fixed native battery of the clause family (rac/C01_ded.py), no model values needed"""
+    return lambda model: dict(kind=kind)
+
+
+def _post_all(ctx, n0, kind):
+    """obligations generated since n0 (posted here or raised inside the executor) are replayed by the native battery of their family"""
+    for ob in ctx.obligations[n0:]:
+        if ob.kind != 'syntactic':
+            ob.meta['replay'] = _battery(kind)
+            ob.meta['replay_without_model'] = True
+
+
+def rows_constructor_obligations(ctx, m):
+    """dictable(data = list of n row tuples, columns = m distinct names), every row of length m - dictable.__init__ with _data_columns_as_dict, _value and
+    as_list inlined from the source; zipper by its contract (C19): the table has exactly the named columns, each with n entries, and the column of the
+    p-th name lists row[i][p] for i = 0..n-1; for n == 0 these are the named columns, all empty.  Run for the names given as a python list and as the
+    keys() of a dict (what __getitem__ hands over).  This is the contract `RowsHeaders.call_value` gives to callers of `type(self)(rows, names)`."""
+    fdef = m.func('dictable.__init__')
+    ma = ctx.mod('_as_list')
+    inline = _inline(m)
+    inline['_data_columns_as_dict'] = (m, m.func('_data_columns_as_dict'))
+    inline['as_list'] = (ma, ma.func('as_list'))
+    W = Int('WIDTH')
+    for label in ('names', 'keys'):
+        n0 = len(ctx.obligations)
+        rows, rl, cells = fresh_rows('data')
+        if label == 'names':
+            columns = name_list('columns')
+        else:
+            columns = SV('tkeys', None, of=fresh_table('cols_of'))
+        ex = Exec(m, [RowsHeaders(), Names(), Init(), Rows(), Dictable(m), Tables(), Lists(), TypePreds(extra={'is_arr': ()}), ConcreteStr(m)], inline=inline,
+                  name='constructor.rows.' + label)
+        ks = keyseq(ex, columns)
+        pre = [rows.t >= 0, W >= 0, rows_of_width(rows, W), ks.m == W, distinct_names(ks)]
+        st = State()
+        st.pc += pre
+        outs = ex.run_function(st, 'dictable.__init__', [_new_table(), rows, columns], {})
+        ctx.absorb(ex)
+        ctx.record_function(m, 'dictable.__init__', fdef, ex.stmts_executed)
+        ctx.record_function(m, '_data_columns_as_dict', inline['_data_columns_as_dict'][1], ex.stmts_executed)
+        nret = 0
+        for out in outs:
+            hy = ex.facts + out.st.pc
+            if out.kind != 'return':
+                ctx.post('constructor.rows.%s.never_raises.%s' % (label, out.val), hy, BoolVal(False), kind='safety')
+                continue
+            nret += 1
+            for cname, goal in zip(ROWS_CLAUSES, rows_headers_contract(ks, rows, out.st.env['self'])):
+                ctx.post('constructor.rows.%s.%s' % (label, cname), hy, goal)
+        if nret == 0:
+            raise OutOfSubset('constructor (rows + headers, %s) has no returning path' % label)
+        ground_section(ctx, n0, rounds=3, lazy=True)
+        _post_all(ctx, n0, 'rows_headers')
+        ctx.cover('constructor.rows.%s.pre' % label, pre + [rows.t == 2, W == 2])
+        ctx.cover('constructor.rows.%s.no_row_reachable' % label, pre + [rows.t == 0, W == 2])
+
+
+# ====================================================================================================== __getitem__(list of ints)
+def ints_obligations(ctx, m):
+    """d[[i_0, ..., i_k-1]] (k >= 1 integers; [] is the empty-list branch of the mask section): `values = list(zip(*self.values()))` - the list of the
+    row tuples of a rectangular table (axiom: transposition of the columns) -, `[values[i] for i in item]` with Python list indexing, and the
+    constructor from rows + headers by its contract (constructor.rows.*).  The result has all the columns of the receiver and k rows, row j being row
+    item[j] of the receiver (a negative index counts from the end); IndexError iff some index is outside -len(d) .. len(d)-1; d is left as it was."""
+    fdef = m.func('dictable.__getitem__')
+    n = Int('N')
+    t = fresh_table('self')
+    item = fresh_list(INT, 'item')
+    item.f['elems'] = 'int'
+    L, iarr = item.t, item.arrs[0]
+    n0 = len(ctx.obligations)
+    ex = Exec(m, [RowsHeaders(construct='contract'), Slices(), Init(), Rows(known=[(t, n)]), GetItem(), Dictable(m), Tables(), Lists(), TypePreds(extra={'is_arr': ()})],
+              inline=_inline(m), name='__getitem__.ints')
+    st = State(env={'self': t})
+    pre = [wf(t, n), L >= 1]
+    st.pc += pre
+    outs = ex.run_function(st, 'dictable.__getitem__', [t, item], {})
+    ctx.absorb(ex)
+    ctx.record_function(m, 'dictable.__getitem__', fdef, ex.stmts_executed)
+    R = nrows(t, n)
+    j = Int('j!in')
+    c = Const('c!in', Key)
+    in_range = lambda x: And(-R <= x, x < R)
+    row_of = lambda x: If(x < 0, x + R, x)
+    nret = nraise = 0
+    for out in outs:
+        hy = ex.facts + out.st.pc
+        if out.kind == 'raise':
+            nraise += 1
+            ctx.post('__getitem__.ints.raises_only_IndexError_and_only_for_an_index_out_of_range', hy,
+                     And(BoolVal(out.val == 'IndexError'), Exists([j], And(0 <= j, j < L, Not(in_range(iarr[j])))), same_table(out.st.env['self'], t)), kind='safety')
+            continue
+        nret += 1
+        o = out.val
+        if o.kind != 'table':
+            raise OutOfSubset('integer-list selection does not return a table')
+        ctx.post('__getitem__.ints.returns_only_when_every_index_is_in_range', hy, ForAll([j], Implies(And(0 <= j, j < L), in_range(iarr[j]))))
+        ctx.post('__getitem__.ints.keeps_all_columns', hy, ForAll([c], o.dom[c] == t.dom[c]))
+        ctx.post('__getitem__.ints.rectangular_with_one_row_per_index', hy, wf(o, L))
+        ctx.post('__getitem__.ints.row_j_is_row_item_j_of_the_receiver', hy,
+                 ForAll([c, j], Implies(And(t.dom[c], 0 <= j, j < L), o.carr[c][j] == t.carr[c][row_of(iarr[j])])))
+        ctx.post('__getitem__.ints.receiver_unchanged', hy, same_table(out.st.env['self'], t))
+    if nret == 0 or nraise == 0:
+        raise OutOfSubset('integer-list selection: expected a returning and a raising path')
+    ground_section(ctx, n0, rounds=3, lazy=True)
+    _post_all(ctx, n0, 'getitem_ints')
+    ka = key_of('a')
+    ctx.cover('__getitem__.ints.pre', pre + [n == 3, t.dom[ka], L == 2, iarr[0] == 2, iarr[1] == -1])
+    ctx.cover('__getitem__.ints.out_of_range_reachable', pre + [n == 3, t.dom[ka], L == 1, iarr[0] == 3])
+
+
 # ====================================================================================================== dict_concat
 def dict_concat_obligations(ctx, m):
     """dict_concat(list of records), whole body with as_list inlined: {} for no record; the one-record shortcut; records with one common key set
@@ -693,6 +816,8 @@ def build(ctx):
     ctx.guarded('update', lambda: update_obligations(ctx, m))
     ctx.guarded('__add__', lambda: concat_obligations(ctx, m))
     ctx.guarded('constructor', lambda: constructor_obligations(ctx, m))
+    ctx.guarded('constructor.rows', lambda: rows_constructor_obligations(ctx, m))
+    ctx.guarded('__getitem__.ints', lambda: ints_obligations(ctx, m))
     ctx.guarded('dict_concat', lambda: dict_concat_obligations(ctx, m))
     ctx.trust('the induction over operation histories (every proved operation keeps wf and its model clause; chaining is an argument) and the operations listed as bounded only in the module docstring')
 
